@@ -117,7 +117,26 @@ impl<T: Copy> VecDeque<T> {
         self.items = out;
         self.len = n;
     }
+    // further std API, so that an edited body that still means the same (or does not) is decided rather than rejected
+    pub fn len(&self) -> usize { self.len }
+    pub fn is_empty(&self) -> bool { self.len == 0 }
+    pub fn front(&self) -> Option<&T> { if self.len == 0 { None } else { self.items[0].as_ref() } }
+    pub fn back(&self) -> Option<&T> { if self.len == 0 { None } else { self.items[self.len - 1].as_ref() } }
+    pub fn get(&self, i: usize) -> Option<&T> { if i < self.len { self.items[i].as_ref() } else { None } }
+    pub fn pop_back(&mut self) -> Option<T> { if self.len == 0 { return None; } self.len -= 1; let x = self.items[self.len]; self.items[self.len] = None; x }
+    pub fn clear(&mut self) { self.items = [None; DQ]; self.len = 0; }
+    pub fn drain(&mut self, r: std::ops::RangeTo<usize>) -> DqDrain<T> {
+        assert!(r.end <= self.len, "drain range");
+        let mut out: [Option<T>; DQ] = [None; DQ];
+        let mut rest: [Option<T>; DQ] = [None; DQ];
+        let mut i = 0;
+        while i < DQ { if i < r.end { out[i] = self.items[i]; } else if i < self.len { rest[i - r.end] = self.items[i]; } i += 1; }
+        self.items = rest; self.len -= r.end;
+        DqDrain { items: out, n: r.end, pos: 0 }
+    }
 }
+pub struct DqDrain<T: Copy> { items: [Option<T>; DQ], n: usize, pos: usize }
+impl<T: Copy> Iterator for DqDrain<T> { type Item = T; fn next(&mut self) -> Option<T> { if self.pos < self.n { let x = self.items[self.pos]; self.pos += 1; x } else { None } } }
 
 // ---------------------------------------------------------------- the real struct and methods
 include!("fragments.in.rs");
@@ -125,6 +144,9 @@ include!("fragments.in.rs");
 // ---------------------------------------------------------------- reference model (from the property statement)
 #[derive(Clone, Copy, PartialEq, Eq)]
 struct RefQ { total: u8, have: [bool; MAXT], piece: [u8; MAXT], deadline: u32 }
+
+#[cfg(kani)]
+static mut SMALL: bool = false;
 
 #[cfg(kani)]
 fn run(steps: usize) {
@@ -151,7 +173,11 @@ fn run(steps: usize) {
             kani::assume(total as usize <= MAXT || total == 200);
             let seq: u8 = kani::any();
             kani::assume(seq <= MAXT as u8);
-            let d = Bytes { short: kani::any(), id, total, seq, tag: kani::any(), n: 0, pieces: [0; MAXT] };
+            // the deep-history harness restricts the datagrams to well-formed halves of two-fragment frames
+            if unsafe { SMALL } { kani::assume(total == 2 && seq < 2); }
+            let short: bool = kani::any();
+            if unsafe { SMALL } { kani::assume(!short); }
+            let d = Bytes { short, id, total, seq, tag: kani::any(), n: 0, pieces: [0; MAXT] };
             let got = f.reassemble(d);
             // expected, from the property
             let mut expect: Option<Bytes> = None;
@@ -221,5 +247,10 @@ fn reassemble_4steps() { run(4) }
 #[kani::proof]
 #[kani::unwind(8)]
 fn reassemble_5steps() { run(5) }
+
+#[cfg(kani)]
+#[kani::proof]
+#[kani::unwind(8)]
+fn reassemble_6steps_two_fragment_frames() { unsafe { SMALL = true; } run(6) }
 
 fn main() {}
